@@ -35,7 +35,7 @@ def run_tests(scratch):
     env = dict(os.environ, PYTHONPATH=os.path.join(scratch, "src"))
     p = subprocess.run(
         [sys.executable, "-m", "pytest", "-q", "-p", "no:cacheprovider",
-         "--timeout=900", "--continue-on-collection-errors", "tests"],
+         "--timeout=20", "--continue-on-collection-errors", "tests"],
         cwd=scratch, env=env, capture_output=True, text=True)
     tail = p.stdout.strip().splitlines()[-1] if p.stdout.strip() else ""
     # the clean tree gives "1424 passed"; fewer means the suite notices
